@@ -29,7 +29,7 @@ from ampform.helicity.decay import (  # noqa: E402
 
 REACTIONS = ["jpsi_3pi_hel", "jpsi_3pi_can", "lc_pkpi_hel", "lc_pkpi_can", "jpsi_ksp_hel",
              "jpsi_ksp_can", "d0_kkk_hel", "d0_kkk_can", "jpsi_gpipi_f2_hel",
-             "jpsi_gpipi_f2_can", "d0_k3pi_hel"]
+             "jpsi_gpipi_f2_can", "d0_k3pi_hel", "psi2s_ggjpsi_hel", "chic0_omegaomega_hel"]
 
 LIB_BUILDERS = {
     0: B.create_non_dynamic,
@@ -827,6 +827,8 @@ def compare(case: dict, obs: dict, pred: dict, rng: random.Random, n_numeric: in
     # the public model.amplitudes entries are the sums of these chains per (spin group, topology)
     sums = [sp.Add(*[a1[ij] for ij in g]) for g in c.groups]
     pub = list(model.amplitudes.values())
+    # (amplitude symbols of projection combinations without any transition are defined as 0)
+    pub = [e for e in pub if e != 0]
     if sorted(map(sp.srepr, sums)) != sorted(map(sp.srepr, pub)):
         fail("public_amplitude", "model.amplitudes is not the per-topology sum of the chain amplitudes")
     return fails, stats
